@@ -120,6 +120,19 @@ func dlRun(link string) (out dlOutcome) {
 	return dlOutcome{Kind: "other", Err: fmt.Sprintf("%T", res)}
 }
 
+func swapCase(s string) string {
+	b := []byte(s)
+	for i, ch := range b {
+		switch {
+		case ch >= 'a' && ch <= 'z':
+			b[i] = ch - 32
+		case ch >= 'A' && ch <= 'Z':
+			b[i] = ch + 32
+		}
+	}
+	return string(b)
+}
+
 func hostClass(h string) string {
 	switch h {
 	case "":
@@ -184,6 +197,27 @@ func init() {
 						rep.Disagree(fmt.Sprintf("%s-for-%s:%s", got.Kind, want.Kind, cls),
 							fmt.Sprintf("Resolve(%q) = %s %q (%s), specification says %s %q", link, got.Kind, got.Value, got.Err, want.Kind, want.Value), item)
 						break
+					}
+				}
+				// right after it, the link that differs from it in the case of the token / user name only: an invite token is
+				// case-sensitive, a user name is not - whatever the resolver remembers of the link before
+				if (want.Kind == "invite" || want.Kind == "user") && c.Expect.Seg >= 1 {
+					seg := segs[c.Expect.Seg-1]
+					sw := swapCase(seg)
+					if sw != seg && strings.Count(link, seg) == 1 {
+						link2 := strings.Replace(link, seg, sw, 1)
+						want2 := dlOutcome{Kind: want.Kind, Value: sw}
+						if want.Kind == "user" {
+							want2.Value = strings.ToLower(sw)
+						}
+						got := dlRun(link2)
+						rep.Evaluations++
+						if got.Kind != want2.Kind || got.Value != want2.Value {
+							cls := phase + fmt.Sprintf("scheme=%s:host=%s:port=%s:segs=%s", c.Scheme, hostClass(c.Host), c.Port, strings.Join(c.Segs, ","))
+							rep.Disagree(fmt.Sprintf("%s-for-%s:after-the-same-link-in-another-case:%s", got.Kind, want2.Kind, cls),
+								fmt.Sprintf("Resolve(%q) right after Resolve(%q) = %s %q (%s), specification says %s %q", link2, link, got.Kind, got.Value, got.Err, want2.Kind, want2.Value),
+								map[string]interface{}{"link": link2, "before": link, "want": want2, "got": got})
+						}
 					}
 				}
 			}
